@@ -253,7 +253,17 @@ func runConcWithFault(sc ConcScenario, hf *HandlerFault, prefix []int) (res *Con
 		it := w.L2.M[k]
 		init[k] = kvState{true, string(it.Val), it.Flags}
 	}
-	if sc.Cfg.Orca == "l1only" {
+	if sc.Cfg.Orca == "l1only" && sc.Cfg.L1H == "chunked" {
+		// (the backend holds metadata and chunk entries: ask the chunked handler what the keys hold)
+		hh := chunked.NewHandler(fakemc.NewConn(w.L1, "init"))
+		for _, k := range w.L1.Keys() {
+			if ck, role, ok := ownerOf(k); ok && role == "meta" {
+				if r := CallHandler(hh, wire.Op{Kind: "get", Key: ck}); r.Class == "values" && len(r.Hits) == 1 {
+					init[ck] = kvState{true, r.Hits[0].Val, r.Hits[0].Flags}
+				}
+			}
+		}
+	} else if sc.Cfg.Orca == "l1only" {
 		for _, k := range w.L1.Keys() {
 			it := w.L1.M[k]
 			init[k] = kvState{true, string(it.Val), it.Flags}
